@@ -207,9 +207,11 @@ func (r *generateReader) ReadByte() (byte, error) {
 		fmt.Fprintf(&r.mod, mod, r.cur+offset)
 		return r.mod.ReadByte()
 	default:
-		if r.escape { // Pretty useless here
+		if r.escape {
+			// Not an escape for this reader: hand the backslash on and read the octet again.
 			r.escape = false
-			return r.ReadByte()
+			r.si--
+			return '\\', nil
 		}
 
 		return r.s[si], nil
